@@ -213,13 +213,22 @@ func (g *Gen) gEnv() {
 	case 1:
 		if g.O.NoCodeIntro {
 			g.A.PushAddr(EOARich)
+		} else if g.R.Chance(35) {
+			g.A.PushAddr(Pick(g.R, []common.Address{EmptyAcct, EOAPoor, Nobody, common.BytesToAddress([]byte{byte(1 + g.R.Intn(9))}), {}}))
 		} else {
 			g.A.PushAddr(g.target())
 		}
 		g.op(Pick(g.R, []byte{EXTCODESIZE, EXTCODEHASH}))
 		g.sink()
 	case 2:
-		g.A.PushU(uint64(90 + g.R.Intn(15)))
+		switch g.R.Intn(3) {
+		case 0:
+			g.A.PushU(uint64(90 + g.R.Intn(15)))
+		case 1: // relative to the current block: the 256-block window and its edges
+			g.A.PushU(Pick(g.R, []uint64{0, 1, 2, 255, 256, 257, 258, 1000})).Op(NUMBER, SUB)
+		default:
+			g.A.PushU(Pick(g.R, []uint64{0, 1, 43, 255, 256, 257, 300}))
+		}
 		g.op(BLOCKHASH)
 		g.sink()
 	case 3:
@@ -407,7 +416,8 @@ func (g *Gen) gCall() {
 	if kind == CALL || kind == CALLCODE {
 		g.callValue()
 	}
-	g.A.PushAddr(g.target())
+	tgt := g.target()
+	g.A.PushAddr(tgt)
 	g.callGas()
 	g.op(kind)
 	// store the success flag
@@ -415,6 +425,12 @@ func (g *Gen) gCall() {
 		g.A.PushU(uint64(g.R.Intn(8)))
 		g.op(SSTORE)
 	} else {
+		g.sink()
+	}
+	if !g.O.NoCodeIntro && g.R.Chance(25) {
+		// look at the account the call has just touched (it may now exist although it is empty)
+		g.A.PushAddr(tgt)
+		g.op(Pick(g.R, []byte{EXTCODEHASH, EXTCODEHASH, EXTCODESIZE, BALANCE}))
 		g.sink()
 	}
 	if g.R.Chance(30) {
